@@ -1628,11 +1628,14 @@ var mathConsts = map[string]string{
 	"MaxUint32": "4294967295", "MaxUint16": "65535", "MaxUint8": "255",
 }
 
-// sharedExtern: external values read once per call of the outermost leaf (documented assumption of
-// the fifth and sixth generation) keep their name through calls; all others are per call site
+// sharedExtern: parameters handed on to callees under their own name — the function-typed ones
+// (math.Pow: a deterministic function, applied to the arguments of each call site) and the
+// iteration budget. Every other external value is a reading of state outside the function: one
+// parameter per call site (eighth generation; the fifth and sixth shared `ext_Epoch`,
+// `ext_clkEpoch`, `ext_clkNow` between sites, which hid a second reading).
 func sharedExtern(n string) bool {
 	switch n {
-	case "ext_Epoch", "ext_clkEpoch", "ext_Pow", "ext_clkNow", "ext_fuel":
+	case "ext_Pow", "ext_fuel":
 		return true
 	}
 	return false
@@ -2001,14 +2004,7 @@ func (c *leafCtx) call7(ce *ast.CallExpr, li *leafInfo, recv ast.Expr) (string, 
 		pats = append(pats, t)
 	}
 	for _, e := range li.externs {
-		parts := strings.SplitN(e, " : ", 2)
-		n := parts[0]
-		if !sharedExtern(n) {
-			short := strings.ReplaceAll(li.lean[strings.Index(li.lean, "_")+1:], ".", "_")
-			n = c.siteName(ce.Pos()+token.Pos(len(n)), "ext_"+short+"_"+strings.TrimPrefix(n, "ext_"))
-		}
-		c.addExtern(n, parts[1])
-		args = append(args, n)
+		args = append(args, c.externOfCallee(ce.Pos(), li.lean, e))
 	}
 	if c.fileDeps == nil {
 		c.fileDeps = map[string]bool{}
